@@ -60,7 +60,7 @@ def data_maps(tables_needed, kd, ke, d_rows=None, e_rows=None):
 # ---------------------------------------------------------------------------------------
 # conversions
 
-_PD_DTYPES = {"str": "object", "int": "int64", "float": "float64", "bool": "bool"}
+_PD_DTYPES = {"str": "object", "int": "int64", "float": "float64", "bool": "bool", "date": "datetime64[ns]", "datetime": "datetime64[ns]"}
 
 
 def to_pandas(t, index=None):
@@ -71,6 +71,9 @@ def to_pandas(t, index=None):
     for j, c in enumerate(t["columns"]):
         vals = [r[j] for r in t["rows"]]
         ty = t["types"][c]
+        if ty in ("date", "datetime"):
+            cols[c] = pandas.to_datetime(pandas.Series(vals, dtype="object"))
+            continue
         if ty == "int" and any(v is None for v in vals):
             ty = "float"
         if ty == "bool" and any(v is None for v in vals):
@@ -87,7 +90,7 @@ def to_pandas(t, index=None):
 def to_polars(t, lazy=False):
     import polars as pl
 
-    m = {"str": pl.Utf8, "int": pl.Int64, "float": pl.Float64, "bool": pl.Boolean}
+    m = {"str": pl.Utf8, "int": pl.Int64, "float": pl.Float64, "bool": pl.Boolean, "date": pl.Date, "datetime": pl.Datetime}
     schema = {c: m[t["types"][c]] for c in t["columns"]}
     data = {c: [r[j] for r in t["rows"]] for j, c in enumerate(t["columns"])}
     df = pl.DataFrame(data, schema=schema)
@@ -96,7 +99,7 @@ def to_polars(t, lazy=False):
     return df
 
 
-_SQL_TYPES = {"str": "TEXT", "int": "INTEGER", "float": "REAL", "bool": "INTEGER"}
+_SQL_TYPES = {"str": "TEXT", "int": "INTEGER", "float": "REAL", "bool": "INTEGER", "date": "TEXT", "datetime": "TEXT"}
 
 
 def to_sqlite(conn, name, t):
